@@ -74,12 +74,41 @@ def programs(seed, n, nops):
     return out
 
 
+def sealed_journal_scenarios(tier):
+    """records of a deleted keyspace survive only in a SEALED journal (needs real 64 MB of traffic): deleting the
+    keyspace with the highest id, reopening, creating a new keyspace and reopening again must not hand the old records to
+    the new keyspace; a still-existing lagging keyspace must keep its data"""
+    from common import run_fjv
+    out = []
+    for variant in (0, 1) if tier == "quick" else (0, 1, 2):
+        L = ["open plain jcomp=none", "ks h0 alpha", "ks h1 beta", "put h1 6b 01", "put h0 6a 00"]
+        if variant == 2:
+            L += ["ks h5 delta", "put h5 6d 05"]
+        L += ["bigfill h0 66 1024 t0", "rotate h0", "drain", "info", "delks h1", "drop h1", "reopen", "names",
+              "ks h2 gamma", "put h2 6c 02"]
+        if variant == 1:
+            L += ["clear h2", "put h2 6c 03"]
+        L += ["reopen", "ks h3 gamma", "scan - h3 fwd all", "ks h4 alpha", "get - h4 6a", "names"]
+        prog = "\n".join(L) + "\n"
+        o, raw, rc = run_fjv(prog, timeout=300)
+        n = len(L)
+        want_scan = "6c=03" if variant == 1 else "6c=02"
+        want_names = "alpha,delta,gamma" if variant == 2 else "alpha,gamma"
+        if o.get(n - 3) != want_scan or o.get(n - 1) != "some 00" or o.get(n) != want_names:
+            out.append(("after deleting the keyspace whose records live in a sealed journal, reopen, create, reopen: new keyspace "
+                        "reads %s (expected %s), alpha 6a = %s, names %s" % (o.get(n - 3), want_scan, o.get(n - 1), o.get(n)), prog))
+    return out
+
+
 def run(rep, tier, seed, build):
     n, nops = (300, 45) if tier == "quick" else (8000, 80)
     audit(rep, "props/C12.v", THEOREMS, build)
     progs = corpus("C12") + programs(seed, n, nops)
     res = run_seq(rep, progs)
-    coverage(rep, res, progs, RULE)
+    sj = sealed_journal_scenarios(tier)
+    for msg, prog in sj[:2]:
+        rep.violation("# C12: %s\n%s" % (msg, prog))
+    coverage(rep, res, progs, RULE, dict(sealed_journal_scenarios=2 if tier == "quick" else 3))
 
 
 def replay(rep, path, build):
